@@ -54,6 +54,48 @@ def h_flavour(k0: int, k1: int, k2: int, k3: int, k4: int, k5: int, k6: int, k7:
     return finish(ok, n_items(d) >= 1 and (f0 != "list" or ff != "def"), (name, f0, f1 if len(d.srcs) > 1 else "-", ff if getattr(op, "fn", False) else "-", tuple(len(s) for s in d.srcs), endkind(end_s)))
 
 
+# ---- sum: the same numbers / strings under every iterable flavour ------------------------------
+SUM_POOL = (1, 1.0, True, 0.1, 0.2, 0.3, -1, 2.5, "a", "b")
+
+
+def h_sum_flavour(x: int, n: int, s0: int, s1: int, s2: int, ss: int):
+    """
+    pre: 0 <= x <= 4 and 0 <= n <= P("N", 2) and -1 <= ss < 10
+    pre: P("x") is None or x == P("x")
+    pre: P("s0") is None or s0 == P("s0")
+    pre: 0 <= s0 < 10 and 0 <= s1 < 10 and 0 <= s2 < 10
+    post: _[0]
+    post: not _[1]
+    """
+    reset_run()
+    sels = [s0, s1, s2]
+    vals = []
+    for j in range(n):
+        vals.append(pick(SUM_POOL, sels[j]))
+    args = () if ss == -1 else (pick(SUM_POOL, ss),)
+    fl = pick(ITER_FLAVOURS, x)
+    W0, W1 = World("a"), World("a")
+    D0, D1 = Driver(W0, sync_only=True), Driver(W1, sync_only=True)
+    try:
+        r0 = D0.call(A.sum(W0.source(vals, "list"), *args))
+        r1 = D1.call(A.sum(W1.source(vals, fl), *args))
+    except Suspended:
+        return finish(fail("sum:suspended-with-nonsuspending-arguments"), False)
+    from .world import _no_tracing
+
+    with _no_tracing():
+        if r0[0] != r1[0]:
+            same = False
+        elif r0[0] == "ok":
+            same = type(r0[1]) is type(r1[1]) and r0[1] == r1[1]
+        else:
+            same = type(r0[1]) is type(r1[1])
+    ok = True
+    if not same:
+        ok = fail("sum:result-differs-under-flavour", (fl, vals, args, r0, r1))
+    return finish(ok, len(vals) >= 2 and fl != "list", ("sum_flavour", fl, len(vals), len(args), r0[0]))
+
+
 # ---- every public callable returns an awaitable / async iterator / async context manager ----
 def _category(obj):
     if hasattr(obj, "__anext__") and hasattr(obj, "__aiter__"):
@@ -209,7 +251,11 @@ def _grid():
     return out
 
 
-GRID = {"h_flavour": _grid, "h_types": lambda: [(i,) for i in range(56)]}
+GRID = {
+    "h_flavour": _grid,
+    "h_types": lambda: [(i,) for i in range(56)],
+    "h_sum_flavour": lambda: [(x, n, a, b, 5, ss) for x in range(5) for n in (0, 2, 3) for a in (0, 3, 8) for b in (4, 9) for ss in (-1, 3, 8)],
+}
 
 TOOLS_FN = ["filter", "filterfalse", "takewhile", "dropwhile", "accumulate_f", "accumulate_f_init", "iter_sentinel", "starmap"]
 TOOLS_NOFN = ["filter_none", "filterfalse_none", "pairwise", "cycle", "enumerate", "batched", "islice"]
@@ -244,11 +290,17 @@ def jobs(tier):
             add("h_flavour", op="merge", S=2, N=(1 if q else 2), X=(0, 4), Y=(0, 4), Z=((0, 3) if b1 else (0, 0)), b0=b0, b1=b1)
     add("h_flavour", op="zip", S=3, N=1, X=(0, 4), Y=(0, 4))
     add("h_types")
+    for x in range(1, 5):
+        if q:
+            add("h_sum_flavour", x=x, N=2)
+        else:
+            for s0 in range(10):
+                add("h_sum_flavour", x=x, N=3, s0=s0)
     return J
 
 
 BOUNDS = {
-    "quick": "every iterable parameter takes each of {list, __getitem__ sequence, sync iterator, async generator, class-based async iterator} and every callable parameter each of {def, async def, partial(async def), callable object returning a coroutine} by symbolic selectors (up to 5x5x4 combinations per tool); data N<=2 (two-source tools N<=1), keys unbounded; result compared with the stdlib on canonical flavours; return-type category checked for 55 public call forms covering asyncstdlib.__all__",
+    "quick": "every iterable parameter takes each of {list, __getitem__ sequence, sync iterator, async generator, class-based async iterator} and every callable parameter each of {def, async def, partial(async def), callable object returning a coroutine} by symbolic selectors (up to 5x5x4 combinations per tool); data N<=2 (two-source tools N<=1), keys unbounded; result compared with the stdlib on canonical flavours; sum over numbers incl. inexact floats and strings (N<=2, thorough 3, any start) under every flavour; return-type category checked for 55 public call forms covering asyncstdlib.__all__",
     "thorough": "N<=3 (two-source tools N<=2)",
 }
 OUTSIDE = ["sorted(key=None) over a __getitem__-only sequence (CrossHair's sorted model rejects such sequences; covered natively by the pre-flight grid only)", "callables that return an awaitable on some calls and a plain value on others", "data sizes above the bound (flavour handling does not depend on data; stated, not proved)", "exit callbacks of ExitStack (covered by C14's entry kinds)"]
